@@ -16,18 +16,18 @@ Definition set_sites : list site := [
   ((s "sharepoint2text/parsing/extractors/html_extractor.py"), (s "<module>"), (149)%Z, UMember);
   ((s "sharepoint2text/parsing/extractors/html_extractor.py"), (s "_HtmlTextExtractor._collect_headings_recursive"), (403)%Z, UMember);
   ((s "sharepoint2text/parsing/extractors/html_extractor.py"), (s "_HtmlTextExtractor._process_node"), (524)%Z, UMember);
-  ((s "sharepoint2text/parsing/extractors/ms_legacy/doc_extractor.py"), (s "_DocReader._extract_images_from_word_document"), (357)%Z, UMember);
-  ((s "sharepoint2text/parsing/extractors/ms_legacy/doc_extractor.py"), (s "_DocReader._extract_png_images_from_bytes"), (451)%Z, UMember);
-  ((s "sharepoint2text/parsing/extractors/ms_legacy/doc_extractor.py"), (s "_DocReader._extract_image_captions"), (591)%Z, UMember);
-  ((s "sharepoint2text/parsing/extractors/ms_legacy/doc_extractor.py"), (s "_DocReader._parse_content"), (694)%Z, UMember);
-  ((s "sharepoint2text/parsing/extractors/ms_legacy/doc_extractor.py"), (s "_DocReader._filter_low_entropy_images"), (559)%Z, ULen);
-  ((s "sharepoint2text/parsing/extractors/ms_legacy/ppt_extractor.py"), (s "<module>"), (87)%Z, UMember);
-  ((s "sharepoint2text/parsing/extractors/ms_legacy/ppt_extractor.py"), (s "<module>"), (88)%Z, UMember);
-  ((s "sharepoint2text/parsing/extractors/ms_legacy/ppt_extractor.py"), (s "<module>"), (96)%Z, UMember);
-  ((s "sharepoint2text/parsing/extractors/ms_legacy/ppt_extractor.py"), (s "_extract_images_from_pictures_stream"), (612)%Z, UMember);
-  ((s "sharepoint2text/parsing/extractors/ms_legacy/ppt_extractor.py"), (s "_parse_ppt_document"), (363)%Z, UMember);
+  ((s "sharepoint2text/parsing/extractors/ms_legacy/doc_extractor.py"), (s "_DocReader._extract_images_from_word_document"), (360)%Z, UMember);
+  ((s "sharepoint2text/parsing/extractors/ms_legacy/doc_extractor.py"), (s "_DocReader._extract_png_images_from_bytes"), (454)%Z, UMember);
+  ((s "sharepoint2text/parsing/extractors/ms_legacy/doc_extractor.py"), (s "_DocReader._extract_image_captions"), (594)%Z, UMember);
+  ((s "sharepoint2text/parsing/extractors/ms_legacy/doc_extractor.py"), (s "_DocReader._parse_content"), (697)%Z, UMember);
+  ((s "sharepoint2text/parsing/extractors/ms_legacy/doc_extractor.py"), (s "_DocReader._filter_low_entropy_images"), (562)%Z, ULen);
+  ((s "sharepoint2text/parsing/extractors/ms_legacy/ppt_extractor.py"), (s "<module>"), (90)%Z, UMember);
+  ((s "sharepoint2text/parsing/extractors/ms_legacy/ppt_extractor.py"), (s "<module>"), (91)%Z, UMember);
+  ((s "sharepoint2text/parsing/extractors/ms_legacy/ppt_extractor.py"), (s "<module>"), (99)%Z, UMember);
+  ((s "sharepoint2text/parsing/extractors/ms_legacy/ppt_extractor.py"), (s "_extract_images_from_pictures_stream"), (615)%Z, UMember);
+  ((s "sharepoint2text/parsing/extractors/ms_legacy/ppt_extractor.py"), (s "_parse_ppt_document"), (366)%Z, UMember);
   ((s "sharepoint2text/parsing/extractors/ms_legacy/rtf_extractor.py"), (s "_RtfParser.<class>"), (215)%Z, UAnyAll);
-  ((s "sharepoint2text/parsing/extractors/ms_legacy/xls_extractor.py"), (s "_extract_images_from_workbook"), (349)%Z, UMember);
+  ((s "sharepoint2text/parsing/extractors/ms_legacy/xls_extractor.py"), (s "_extract_images_from_workbook"), (370)%Z, UMember);
   ((s "sharepoint2text/parsing/extractors/ms_modern/docx_extractor.py"), (s "<module>"), (178)%Z, UMember);
   ((s "sharepoint2text/parsing/extractors/ms_modern/docx_extractor.py"), (s "<module>"), (181)%Z, UMember);
   ((s "sharepoint2text/parsing/extractors/ms_modern/docx_extractor.py"), (s "_extract_images_from_context"), (916)%Z, UMember);
@@ -98,20 +98,20 @@ Definition stream_sites : list stream_site := [
   ((s "sharepoint2text/parsing/extractors/mail/msg_email_extractor.py"), (s "read_msg_format_mail"), (380)%Z, (s "read"));
   ((s "sharepoint2text/parsing/extractors/mhtml_extractor.py"), (s "read_mhtml"), (268)%Z, (s "seek"));
   ((s "sharepoint2text/parsing/extractors/mhtml_extractor.py"), (s "read_mhtml"), (269)%Z, (s "read"));
-  ((s "sharepoint2text/parsing/extractors/ms_legacy/doc_extractor.py"), (s "read_doc"), (238)%Z, (s "seek"));
-  ((s "sharepoint2text/parsing/extractors/ms_legacy/ppt_extractor.py"), (s "read_ppt"), (236)%Z, (s "seek"));
-  ((s "sharepoint2text/parsing/extractors/ms_legacy/ppt_extractor.py"), (s "_extract_ppt_content_structured"), (253)%Z, (s "seek"));
-  ((s "sharepoint2text/parsing/extractors/ms_legacy/ppt_extractor.py"), (s "_extract_ppt_content_structured"), (260)%Z, (s "seek"));
-  ((s "sharepoint2text/parsing/extractors/ms_legacy/ppt_extractor.py"), (s "_extract_ppt_metadata"), (674)%Z, (s "seek"));
-  ((s "sharepoint2text/parsing/extractors/ms_legacy/ppt_extractor.py"), (s "_extract_ppt_metadata"), (679)%Z, (s "seek"));
+  ((s "sharepoint2text/parsing/extractors/ms_legacy/doc_extractor.py"), (s "read_doc"), (241)%Z, (s "seek"));
+  ((s "sharepoint2text/parsing/extractors/ms_legacy/ppt_extractor.py"), (s "read_ppt"), (239)%Z, (s "seek"));
+  ((s "sharepoint2text/parsing/extractors/ms_legacy/ppt_extractor.py"), (s "_extract_ppt_content_structured"), (256)%Z, (s "seek"));
+  ((s "sharepoint2text/parsing/extractors/ms_legacy/ppt_extractor.py"), (s "_extract_ppt_content_structured"), (263)%Z, (s "seek"));
+  ((s "sharepoint2text/parsing/extractors/ms_legacy/ppt_extractor.py"), (s "_extract_ppt_metadata"), (677)%Z, (s "seek"));
+  ((s "sharepoint2text/parsing/extractors/ms_legacy/ppt_extractor.py"), (s "_extract_ppt_metadata"), (682)%Z, (s "seek"));
   ((s "sharepoint2text/parsing/extractors/ms_legacy/rtf_extractor.py"), (s "read_rtf"), (888)%Z, (s "seek"));
   ((s "sharepoint2text/parsing/extractors/ms_legacy/rtf_extractor.py"), (s "read_rtf"), (889)%Z, (s "read"));
-  ((s "sharepoint2text/parsing/extractors/ms_legacy/xls_extractor.py"), (s "_read_content"), (204)%Z, (s "read"));
-  ((s "sharepoint2text/parsing/extractors/ms_legacy/xls_extractor.py"), (s "read_xls"), (297)%Z, (s "seek"));
-  ((s "sharepoint2text/parsing/extractors/ms_legacy/xls_extractor.py"), (s "read_xls"), (301)%Z, (s "seek"));
-  ((s "sharepoint2text/parsing/extractors/ms_legacy/xls_extractor.py"), (s "read_xls"), (302)%Z, (s "read"));
-  ((s "sharepoint2text/parsing/extractors/ms_legacy/xls_extractor.py"), (s "_extract_images_from_workbook"), (330)%Z, (s "seek"));
-  ((s "sharepoint2text/parsing/extractors/ms_legacy/xls_extractor.py"), (s "_extract_images_from_workbook"), (334)%Z, (s "seek"));
+  ((s "sharepoint2text/parsing/extractors/ms_legacy/xls_extractor.py"), (s "_read_content"), (225)%Z, (s "read"));
+  ((s "sharepoint2text/parsing/extractors/ms_legacy/xls_extractor.py"), (s "read_xls"), (318)%Z, (s "seek"));
+  ((s "sharepoint2text/parsing/extractors/ms_legacy/xls_extractor.py"), (s "read_xls"), (322)%Z, (s "seek"));
+  ((s "sharepoint2text/parsing/extractors/ms_legacy/xls_extractor.py"), (s "read_xls"), (323)%Z, (s "read"));
+  ((s "sharepoint2text/parsing/extractors/ms_legacy/xls_extractor.py"), (s "_extract_images_from_workbook"), (351)%Z, (s "seek"));
+  ((s "sharepoint2text/parsing/extractors/ms_legacy/xls_extractor.py"), (s "_extract_images_from_workbook"), (355)%Z, (s "seek"));
   ((s "sharepoint2text/parsing/extractors/ms_modern/docx_extractor.py"), (s "read_docx"), (1039)%Z, (s "seek"));
   ((s "sharepoint2text/parsing/extractors/ms_modern/pptx_extractor.py"), (s "read_pptx"), (951)%Z, (s "seek"));
   ((s "sharepoint2text/parsing/extractors/ms_modern/xlsx_extractor.py"), (s "_read_metadata"), (314)%Z, (s "seek"));
